@@ -230,7 +230,14 @@ func TestVerifC20(t *testing.T) {
 			return
 		}
 		os.Setenv("PWD", enter) // what a shell leaves behind after `cd`
-		ref := c20Resolve(b.cwd, p, 0)
+		// Where the database would actually live: Pebble names its files on the lexically cleaned
+		// path (filepath.Join), so `..` is taken lexically FIRST (against the physical working
+		// directory for a relative spelling) and symbolic links are resolved afterwards.
+		lex := p
+		if !filepath.IsAbs(lex) {
+			lex = filepath.Join(b.cwd, lex)
+		}
+		ref := c20Resolve("/", filepath.Clean(lex), 0)
 		if ref.skip {
 			r.Count("skipped_no_agreed_meaning", 1)
 			return
@@ -302,6 +309,58 @@ func TestVerifC20(t *testing.T) {
 	for _, b := range bases {
 		for _, rel := range []string{"toEtc/", "toEtc//missing", "safe/db/", "./toEtc/./missing", "etc/", "etcetera/"} {
 			check(b, rel, false)
+		}
+	}
+	// `..` after a symbolic link: the kernel resolves it against the link's target, a lexical clean
+	// against the link's own directory. Where a database ends up is judged by EFFECT: whatever the
+	// open returns, nothing may have been created or changed inside the protected directory.
+	if sh, _ := vh.Shard(); sh == 0 && prot != "" {
+		depth := len(strings.Split(strings.Trim(fix, "/"), "/"))
+		deep := fix
+		for i := 0; i <= depth; i++ {
+			deep = filepath.Join(deep, fmt.Sprintf("d%d", i))
+		}
+		os.MkdirAll(deep, 0o755)
+		os.Symlink(deep, filepath.Join(fix, "deepLink"))
+		ups := strings.Repeat("/..", depth+1)
+		snapshot := func() string {
+			var l []string
+			filepath.WalkDir(prot, func(p string, d os.DirEntry, err error) error {
+				if err == nil {
+					if fi, e := d.Info(); e == nil {
+						l = append(l, fmt.Sprintf("%s:%d", strings.TrimPrefix(p, prot), fi.Size()))
+					}
+				}
+				return nil
+			})
+			return strings.Join(l, "\n")
+		}
+		for _, tail := range []string{"/safe", "/safe/newdb", "/db", "/brandnew"} {
+			for _, cwdRel := range []bool{false, true} {
+				p := filepath.Join(fix, "deepLink") + ups + prot + tail // deliberately NOT cleaned
+				if cwdRel {
+					os.Chdir(fix)
+					os.Setenv("PWD", fix)
+					p = "deepLink" + ups + prot + tail
+				}
+				before := snapshot()
+				VerifFS = nil
+				sc, err := NewPebbleScanner(p, DefaultPebbleScannerOptions())
+				if sc != nil {
+					sc.Close()
+				}
+				after := snapshot()
+				r.Eval()
+				key := fmt.Sprintf("effect/dotdot-after-link%s/relative=%v", tail, cwdRel)
+				r.Nontrivial(key)
+				if before != after {
+					r.Violate(key, fmt.Sprintf("NewPebbleScanner(%q) (error: %v) created or changed files inside the protected directory %s:\nbefore:\n%s\nafter:\n%s", p, err, prot, before, after), map[string]interface{}{"tail": tail})
+					// restore the fixture
+					os.RemoveAll(filepath.Join(prot, "safe"))
+					os.MkdirAll(filepath.Join(prot, "safe"), 0o755)
+					os.RemoveAll(filepath.Join(prot, "brandnew"))
+				}
+			}
 		}
 	}
 	r.Max("max_segments", int64(maxSeg))
